@@ -130,6 +130,8 @@ class Interp:
             val = self.ev(a[1], env, {})
             if not is_bv(addr) or not is_bv(val):
                 raise SortError("STOREW needs bitvectors")
+            if addr[0] != 32:
+                raise SortError(f"STOREW address of {addr[0]} bits (memory keys are 32 bit)")
             if val[0] % 8:
                 raise SortError(f"STOREW of {val[0]} bits")
             self.m.store(addr[1], val[0] // 8, val[1])
@@ -346,6 +348,8 @@ class Interp:
             addr = ev(a[1], env, lets)
             if not is_bv(addr):
                 raise SortError("LOADW address is not a bitvector")
+            if addr[0] != 32:
+                raise SortError(f"LOADW address of {addr[0]} bits (memory keys are 32 bit)")
             if n % 8:
                 raise SortError(f"LOADW of {n} bits")
             return bv(n, self.m.load(addr[1], n // 8))
